@@ -389,7 +389,7 @@ class Model:
             for name, values in kargs.items():
                 up_dic[name] = values[0] if len(values) == 1 else values[i]
             self.param_dic.update(up_dic)
-            S_list.append(self.create_S())
+            S_list.append(np.array(self.create_S()))
         return SolvedModel(
             pin_dic=self.pin_dic,
             param_dic=kargs,
